@@ -468,3 +468,87 @@ def fixpoint_rule(ctx, rep, rid="FIX"):
                     rep.ok(rid, "%s: loop flag `%s` is only reset or or-accumulated inside nested loops" % (b.name, b.varname(f)))
     rep.count("loop flags examined", n)
     rep.floor(rid, 3, "fixpoint loops")
+
+
+# ------------------------------------------------------------------------------------------------
+# L-TRAV: structural recursions over the regex tree visit every container variant
+# ------------------------------------------------------------------------------------------------
+CONTAINERS = ("OrderedChoice", "Alternation", "Concat", "Paren", "Optional", "Star", "Plus")
+
+
+def traversal_rule(ctx, rep, rid="TRAV", only=None, floor=56):
+    rep.rule(rid, "EXHAUSTIVENESS: every recursive function of the semantic pass and the Rust back end that dispatches on the kind of a regex node "
+                  "(a switch on the discriminant of ast::Regex with an arm per variant) recurses, in the arm of each of the seven container variants "
+                  "(ordered choice, alternation, concatenation, parentheses, option, star, plus), into the children: the arm contains a call from "
+                  "which the function itself is reachable. A pass that skips a container never sees what is nested in it (e.g. the ban on "
+                  "semantic actions and nested choices inside an ordered choice, usage marking, first/follow computation)")
+    from .cg import CallGraph
+    lib = ctx.lelwel()
+    G = CallGraph([lib])
+    regex_adt = [a for a in lib.adts if a.endswith("frontend::ast::Regex")]
+    if not regex_adt:
+        raise MissingAnchor("enum frontend::ast::Regex not found")
+    vnames = {v["d"]: v["n"] for v in lib.adts[regex_adt[0]]["variants"]}
+    reach_cache = {}
+
+    def reaches(src, dst):
+        if src not in reach_cache:
+            reach_cache[src] = G.reach([src])
+        return dst in reach_cache[src]
+
+    nfun = 0
+    for b in user_bodies(lib):
+        if not (b.name.startswith("frontend::sema::") or b.name.startswith("backend::rust::")):
+            continue
+        if only and not any(o in b.name for o in only):
+            continue
+        pr = P(b)
+        disp = None
+        for blk in sorted(b.reachable()):
+            t = b.blocks[blk]["t"]
+            if t["t"] == "switch":
+                e = pr.operand(t["d"])
+                if e[0] == "discr" and e[2].endswith("frontend::ast::Regex") and len(t["arms"]) >= 10 and (e[1][0] == "param" or any(x[0] == "param" for x in walk(e[1]))):
+                    disp = blk
+                    break
+        if disp is None:
+            continue
+        # recursive at all?
+        if not any(reaches(c, b.id) for c in G.succ.get(b.id, ())):
+            continue
+        nfun += 1
+        t = b.blocks[disp]["t"]
+        arm = {vnames.get(v): tg for v, tg in t["arms"]}
+        fn = b.name.split("::", 2)[-1]
+        for V in CONTAINERS:
+            tg = arm.get(V, t["else"])
+            # calls in the region dominated by the arm target (or, for a shared/else target, reachable before the function's join)
+            region = [x for x in b.reachable() if b.dominates(tg, x)] if tg != t["else"] or V not in arm else []
+            if V not in arm:
+                region = [x for x in b.reachable() if b.dominates(tg, x)]
+            ok = False
+            for x in region:
+                tt = b.blocks[x]["t"]
+                if tt["t"] != "call":
+                    continue
+                k = tt["f"].get("k") or {}
+                cands = [k.get("rid"), k.get("fid")]
+                # closures handed to iterator adaptors
+                for a in pr.call_expr(tt)[2]:
+                    for y in walk(a):
+                        if y[0] == "closure":
+                            cands.append(y[1])
+                        elif y[0] == "agg" and y[1][0] == "closure":
+                            cands.append(y[1][1])
+                for cnd in cands:
+                    if cnd and cnd in G.bodies and (cnd == b.id or reaches(cnd, b.id)):
+                        ok = True
+                if ok:
+                    break
+            if ok:
+                rep.ok(rid, "%s: arm for Regex::%s recurses" % (fn, V))
+            else:
+                rep.violation(rid, "%s|%s|no-recursion" % (b.name, V), "%s dispatches on the regex kind and is recursive, but its arm for Regex::%s contains no call that leads back to "
+                              "it: sub-expressions nested in that construct are never visited by this pass" % (b.name, V), site(b, (tg, 0)))
+    rep.count("structural recursions over Regex", nfun)
+    rep.floor(rid, floor, "container arms")
